@@ -77,13 +77,18 @@ impl<'a> GeneratorState<'a> {
                 match right {
                     ExprType::Immediate(r) => {
                         match op {
-                            Operation::Add(_) => return Ok(ExprType::Immediate(l + r)),
-                            Operation::Sub(_) => return Ok(ExprType::Immediate(l - r)),
+                            Operation::Add(_) => return Ok(ExprType::Immediate(l.wrapping_add(*r))),
+                            Operation::Sub(_) => return Ok(ExprType::Immediate(l.wrapping_sub(*r))),
                             Operation::And(_) => return Ok(ExprType::Immediate(l & r)),
                             Operation::Or(_) => return Ok(ExprType::Immediate(l | r)),
                             Operation::Xor(_) => return Ok(ExprType::Immediate(l ^ r)),
-                            Operation::Mul(_) => return Ok(ExprType::Immediate(l * r)),
-                            Operation::Div(_) => return Ok(ExprType::Immediate(l / r)),
+                            Operation::Mul(_) => return Ok(ExprType::Immediate(l.wrapping_mul(*r))),
+                            Operation::Div(_) => {
+                                if *r == 0 {
+                                    return Err(self.compiler_state.syntax_error("Division by zero", pos));
+                                }
+                                return Ok(ExprType::Immediate(l.wrapping_div(*r)));
+                            }
                             _ => { return Err(self.compiler_state.compiler_error("Arithmetics is partially implemented", pos)); },
                         } 
                     },
